@@ -57,6 +57,7 @@ type GenSpec struct {
 	Features []string       `json:"features"`
 	HubEntry map[string]int `json:"hub_entry"` // exported harness entry -> number of int args after the package index
 	MustAccept []string     `json:"must_accept"` // compile-only units: packages the generator must accept (reachability witness of a fault matrix)
+	MustAcceptProp []string `json:"must_accept_property"` // compile-only units: specs whose REFUSAL breaks the property itself (reported as a violation, with the diagnostic)
 }
 
 type UnitSpec struct {
@@ -820,6 +821,25 @@ func compileOnlyUnit(id, scratch string, u *UnitSpec, res *unitResult, listed ma
 		}
 		if !found {
 			res.nativeBad = append(res.nativeBad, "vacuous: the undamaged document "+must+" is refused by the generator, so the fault matrix exercises nothing")
+		}
+	}
+	for _, must := range u.Gen.MustAcceptProp {
+		for _, rj := range st.rejected {
+			if !strings.HasPrefix(rj, must+": ") {
+				continue
+			}
+			v := Violation{Case: u.Name + "/" + must, Msg: "the generator refuses a document the property requires it to accept: " + firstLines(rj[len(must)+2:], 2), Kind: "build", Site: "generate " + must}
+			replayCounter[id]++
+			dir := filepath.Join(outDir, "replays", id, fmt.Sprintf("%03d", replayCounter[id]))
+			os.RemoveAll(dir)
+			os.MkdirAll(dir, 0o755)
+			if b, err := os.ReadFile(st.specs[must]); err == nil {
+				os.WriteFile(filepath.Join(dir, "spec.yml"), b, 0o644)
+			}
+			os.WriteFile(filepath.Join(dir, "README.txt"), []byte("run the tree's generator (drivers/genrun) on spec.yml:\n"+rj+"\n"), 0o644)
+			os.WriteFile(filepath.Join(dir, "replay.sh"), []byte("#!/bin/sh\ncat "+dir+"/README.txt\n"), 0o755)
+			v.PathDesc = dir
+			res.confirmed = append(res.confirmed, v)
 		}
 	}
 	// a generator that panics instead of returning a diagnostic breaks the property as well
